@@ -1,2 +1,5 @@
 pub mod gc;
 pub mod hexlab;
+pub mod multi;
+pub mod prefixes;
+pub mod twin;
